@@ -191,7 +191,7 @@ fn defs() -> &'static [CheckDef] {
             CheckDef {
                 id: "C09",
                 props: Props::of(&["C09"]),
-                scens: vec![Scen { name: "dgram-pair-exact", weight: 2, run: dgram_exact }, Scen { name: "dgram-pair-sloppy", weight: 2, run: dgram_sloppy }, Scen { name: "dgram-pair-frag", weight: 1, run: dgram_frag }, Scen { name: "raw-pair", weight: 1, run: raw_scn }, Scen { name: "scripted-fragments", weight: 1, run: reasm_scn }, Scen { name: "6lowpan-pair", weight: 1, run: sixlo_scn }],
+                scens: vec![Scen { name: "dgram-pair-exact", weight: 2, run: dgram_exact }, Scen { name: "dgram-pair-sloppy", weight: 2, run: dgram_sloppy }, Scen { name: "dgram-pair-frag", weight: 1, run: dgram_frag }, Scen { name: "raw-pair", weight: 1, run: raw_scn }, Scen { name: "scripted-fragments", weight: 1, run: reasm_scn }, Scen { name: "6lowpan-pair", weight: 1, run: sixlo_scn }, Scen { name: "injector", weight: 1, run: injector }],
                 rule: "one run = two real nodes with UDP and ICMP sockets (metadata rings 1-8 slots, payload rings 16-8192 bytes) exchanging tape-chosen datagrams over a faulty link with neighbour-resolution delays and device back-pressure; FIFO reference model per socket; non-trivial = a fault fired AND >= 3 datagrams delivered; distinct = event-log hash",
                 assumptions: vec!["exactly-once is judged at quiescence (no frame in flight, no deadline) after faults stopped"],
                 real: REAL,
@@ -224,7 +224,7 @@ fn defs() -> &'static [CheckDef] {
             CheckDef {
                 id: "C16",
                 props: Props::of(&["C16"]),
-                scens: vec![Scen { name: "neighbour-population", weight: 4, run: neigh_scn }, Scen { name: "dgram-pair-exact", weight: 1, run: dgram_exact }, Scen { name: "dgram-pair-sloppy", weight: 1, run: dgram_sloppy }],
+                scens: vec![Scen { name: "neighbour-population", weight: 4, run: neigh_scn }, Scen { name: "dgram-pair-exact", weight: 1, run: dgram_exact }, Scen { name: "dgram-pair-sloppy", weight: 1, run: dgram_sloppy }, Scen { name: "slaac-node", weight: 1, run: slaac_scn }],
                 rule: "neighbour-population: one real node on Ethernet (IPv4/ARP or IPv6/NDISC) with 3 UDP sockets sending to 2..13 on-link neighbours (cache has 8 slots) and off-link destinations behind two gateways (default + specific route, each with optional expiry), against scripted neighbours that answer solicitations timely, late (to 61 s), never, or first with a non-unicast hardware address / an off-link sender, announce themselves unsolicited, change hardware address; own-address changes; time advances per poll_at, random, and landing on +-1 us of the 1 s rate-limit and 60 s expiry instants; plus the tap oracle on the two-node Ethernet datagram runs; non-trivial = >= 3 unicast frames checked and >= 2 solicitations; distinct = event-log hash",
                 assumptions: vec![
                     "learned(next hop, hardware address) is an over-approximation: every valid announcement delivered to the node within 60 s counts, whether or not the cache kept it (8 slots)",
